@@ -31,7 +31,7 @@ FACETS = {
 def clause_props(K, clause, cfg):
     """Properties an obligation counts for."""
     mode = cfg.get("mode", "plain")
-    if clause.startswith(("pre[", "cover.", "canary", "loop.")):
+    if clause.startswith(("pre[", "cover.", "canary", "loop.", "frame.")):
         return {"*"} | _ALL
     out = set()
     if clause.startswith("C."):
@@ -120,16 +120,53 @@ PROP_ASSUMPTIONS = {
             "callee soundness facts are used through fresh `sat` booleans per call (modular): a caller sees only callee contracts"],
     "C03": ["operand values canonical (|v| < p/4) in the agreement clauses E.*"],
     "C07": ["operand values canonical (|v| < p/2) in G.inert"],
+    "C09": ["bounded in program shape: eight schemas (if, if/else, if/elif/else, nested if, while with 2 iterations, for with max 3, lazy selection, list selection); complete in values and conditions"],
+    "C10": ["trace shapes enumerated (0/1/2 constraints, up to 2 public and 3 private values, linear combinations of 0..3 terms); all values symbolic",
+            "the informational nLabels field of the r1cs header is not asserted"],
+    "C11": ["ASSUMED contract of flatbuffers.Builder (library absent in this sandbox): contracts/zkif_c.py GBuilder; file bytes not decided",
+            "trace shapes enumerated; all values symbolic"],
+    "C12": ["token-level model of text files (print/flush/close/read); wire and function names contain no blanks",
+            "external qaptools executables replaced by failing stubs; truncated-md5 digests assumed collision free",
+            "bounded in program shape: two straight-line programs, one sub-circuit called twice, one inconsistent pair of calls"],
+    "C13": ["evaluation-level statement follows from the pointwise coefficient clauses by linearity of finite sums (lemma L3, on paper / Lean)",
+            "gmpy2 absent: the pure-Python branch of pysnark.gmpy is what runs and what is verified; builtin pow(x, p-2, p) through Fermat's little theorem",
+            "libsnark (C++ binding, absent) is not covered"],
+    "C14": ["float operands are enumerated concrete values representable at the resolution; error-ignoring mode is out of scope (values unspecified there)"],
+    "C15": ["array lengths 1..3 (thorough ..6), 2-D 2x2; single accesses (sequences of accesses follow from whole-array postconditions by composition)"],
+    "C16": ["packer schemas enumerated: PackBool, PackIntMod(m) for m in {1,2,5,8,16,100}, a flat and a nested PackList/PackRepeat"],
+    "C17": ["argument / result shapes enumerated (13); the wrapped body is havocked (own events, arbitrary results)"],
+    "C18": ["ASSUMED environment contract: which of sys.exit / sys.excepthook / atexit callbacks CPython invokes per termination mode; each clause is validated by a subprocess probe of the repository's interpreter on every run (observations, not proofs)"],
+    "C19": ["absent third-party dependencies (flatbuffers, libsnark, qapgen) are stubbed: only their presence matters to the selection code",
+            "pysnark.nobackend always loads"],
+    "C20": ["whole permutation = composition of the 68 per-round clauses (induction over the round index, on paper)",
+            "SHA-512 based generator compared with an independent reimplementation on indices 0..31 only (bounded)"],
 }
 
 EXPLAIN = {
     "C01": "facet C: every triple emitted on every non-raising path holds on the honest witness mod p (checked state: errors on, or inside a guard)",
     "C02": "facet S: for every adversarial witness satisfying the emitted triples with operands fixed, the result wire equals the honest result / its field spec; boolean results are 0/1",
     "C03": "facets S/E/R on assertions and declarations: enforced relation == run-time relation, same width",
-    "C04": "clause V.inv on every function that returns a secret object: value == wire expression on the honest witness mod p",
+    "C04": "clause V.inv on every function that returns a secret object (value == wire expression on the honest witness mod p) and F.operands_not_mutated (no existing secret object or shared constant is changed in place)",
     "C05": "facets V/R: returned value equals the plain-Python spec, raise <=> documented condition",
-    "C06": "facets T/N: event list identical on all non-raising paths and across error/guard modes; coefficients public",
+    "C06": "facets T/N: event list identical on all non-raising paths and across error/guard modes; coefficients public; counts as specified",
     "C07": "all facets in modes g0/g1 plus G.inert: no value-caused exception under a false guard",
+    "C08": "facets V/F on add_guard, restore_guard and the guarded wrapper with a havocked body: state triple restored on every exit, nesting = conjunction",
+    "C09": "program schemas over the real API as interpreted client programs vs their native twins; selection with value and list branches; bookkeeping",
+    "C10": "the two snarkjs files as ghost byte sequences, read back by a layout written from the iden3 format description",
+    "C11": "zkinterface messages at call level (assumed Builder contract), decoded by the slot order of zkinterface.fbs",
+    "C12": "qaptools writer + split at token level on client programs: equations satisfied, flush discipline, per-function files, paired blocks",
+    "C13": "unbounded pointwise coefficient clauses (loop invariants / map rule) plus loop-free companion configurations; frame; moduli; inverse",
+    "C14": "fixed-point operator x operand-kind cells against the scaled-integer spec of the property statement",
+    "C15": "secret-index reads/writes: whole-array postconditions, IndexError <=> out of range, out-of-range unprovable, trace independent of the index",
+    "C16": "bit decomposition / recomposition at widths different from the global one; packers round-trip and reject",
+    "C17": "the @snark wrapper against a havocked body: inputs, outputs, ties, plain results, nothing else public",
+    "C18": "code side of the exit hook proved; interpreter termination table assumed and probed",
+    "C19": "module-level selection code under a symbolic environment; all environments covered by the explored paths",
+    "C20": "per-round Poseidon cut, sponge/padding, parameter binding, ground vectors, subset-sum hash",
 }
 
-BOUNDED = {}
+BOUNDED = {
+    "C18": ["31 subprocess probes (14 termination modes x 2 positions + 3 with autoprove off): observations of the real interpreter"],
+    "C20": ["SHA512_prng(i) == independent reimplementation for i < 32 (concrete comparison)",
+            "4 ground instances of the whole permutation against an independent plain-integer Poseidon and the published vectors"],
+}
